@@ -25,7 +25,8 @@ RULE = ("(a) G_prog 'py' programs extended with complex-valued assignments (powe
         "elementwise_abs, dot products, isnan, len, moves to and from <state>); each executed by the real "
         "interpreter from the state in which each phase first runs, every stored value checked against the kind "
         "infer_kinds gave the variable; (c) every built-in x a grid of argument values (real/complex scalars, "
-        "ints, real/complex arrays of several lengths, tagged user vectors) against get_result_kinds. "
+        "ints, real/complex arrays of several lengths, tagged user vectors and 2x2 / 3x2 user matrices) against "
+        "get_result_kinds. "
         "distinct = canonical JSON of the program / (builtin, argument kinds); non-trivial = inference "
         "succeeded and >=3 differently named variables were stored")
 ASSUMPTIONS = [
